@@ -112,6 +112,87 @@ func c11Direct(c *Ctx) {
 		}
 		tryCells(fmt.Sprintf("cells|raw=%x", s), s, 1)
 	}
+	// A1c: the cellblock decompressor on its own: every short byte string over a boundary
+	// alphabet, and a valid two-block stream with every byte of its two length headers set to
+	// boundary values (singly and in pairs) and every truncation. The lengths are uint32 on
+	// the wire: in the GOARCH=386 pass the values above MaxInt32 turn negative as int.
+	{
+		codec := compression.New("snappy")
+		tryDecomp := func(unit string, buf []byte) {
+			if c.Filter != "" && c.Filter != unit {
+				return
+			}
+			n++
+			nt++
+			var err error
+			m := catch(func() { _, err = region.VDecompress(codec, exactBuf(buf)) })
+			if m != "" {
+				r.Direct(unit, true, "", &explore.Finding{Class: "cellblock-decompressor-panic", Msg: fmt.Sprintf("input % x\n%s", buf, firstLines(m, 12))},
+					func() any { return map[string]any{"unit": unit, "bytes": fmt.Sprintf("% x", buf)} })
+				return
+			}
+			if err != nil {
+				outc["compressed-rejected"]++
+			} else {
+				outc["compressed-accepted"]++
+			}
+		}
+		bnd := []byte{0x00, 0x01, 0x7f, 0x80, 0xff}
+		maxLen := 7
+		if c.Thorough {
+			maxLen = 9
+		}
+		for _, s := range stringsUpTo(bnd, maxLen) {
+			if !own() {
+				continue
+			}
+			if idx%4096 == 0 && r.TimeUp() {
+				return
+			}
+			tryDecomp(fmt.Sprintf("decompress|raw=%x", s), s)
+		}
+		cell := sim.AppendKV(nil, sim.KV{Row: []byte("row"), Family: []byte("cf"), Qualifier: []byte("q1"), Value: []byte("value"), TS: 42, Type: 4})
+		var catc string
+		var block []byte
+		if catc = catch(func() { block = region.VCompress(codec, [][]byte{cell, cell}, uint32(2*len(cell))) }); catc == "" {
+			stream := append(append([]byte(nil), block...), block...)
+			hdr := []int{0, 1, 2, 3, 4, 5, 6, 7}
+			for i := 0; i < 8; i++ {
+				hdr = append(hdr, len(block)+i)
+			}
+			vals := []byte{0x00, 0x01, 0x7f, 0x80, 0xfe, 0xff}
+			for _, p := range hdr {
+				for _, v := range vals {
+					if !own() {
+						continue
+					}
+					b := append([]byte(nil), stream...)
+					b[p] = v
+					tryDecomp(fmt.Sprintf("decompress|valid@%d=%02x", p, v), b)
+				}
+			}
+			for i, p := range hdr {
+				for _, q := range hdr[i+1:] {
+					for _, v := range vals {
+						for _, w := range vals {
+							if !own() {
+								continue
+							}
+							b := append([]byte(nil), stream...)
+							b[p], b[q] = v, w
+							tryDecomp(fmt.Sprintf("decompress|valid@%d=%02x@%d=%02x", p, v, q, w), b)
+						}
+					}
+				}
+			}
+			for cut := 0; cut < len(stream); cut++ {
+				if !own() {
+					continue
+				}
+				tryDecomp(fmt.Sprintf("decompress|valid-trunc=%d", cut), stream[:cut])
+			}
+		}
+	}
 	// A2: boundary product of the five length fields of one KeyValue, with the buffer
 	// holding exactly a valid cell, one byte less, or one cell plus a second valid cell
 	valid := sim.AppendKV(nil, sim.KV{Row: []byte("row"), Family: []byte("cf"), Qualifier: []byte("q1"), Value: []byte("value"), TS: 42, Type: 4})
@@ -1348,6 +1429,6 @@ func init() {
 		Rule:        "A: all byte strings of length <=2 (thorough <=3), all strings <=6 (8) over {00,01,0e,7f,80,ff}, 10x10x10x8x6 boundary values of kvLen/keyLen/valueLen/rowLen/famLen on exact, short and two-cell buffers (capacity = length), truncations x declared counts, 60+ region-info values. B: for each of 4 response kinds ~45-60 field mutations (call id, exception parts, delimiters, cell_block_meta.length, associated_cell_count, cells_per_result vs flags, multi index / duplicate / result-and-exception / region-result count / nameless exceptions, frame length) singly (thorough: in pairs), every truncation, 5 values at every byte, damaged compressed cellblocks; frames whose counts drive allocations run in a sub-process with a 2 GiB limit. Oracle: no panic in any thread, no caller or reader stranded, later calls served or refused. Non-trivial = every malformed input. Part A also: every hbase:meta row KEY of length <=5 over {t , a 1 00 :} with a valid region-info value, parsed and then used like a looked-up region (put into a cache that knows a region of the table, looked up); every sequence of <=2 (thorough 3) scan-result shapes (0-2 cells, partial flag, row a/b) as a first response through the real scanner, partial results allowed or not (no panic, the scan ends). Tier W: structurally valid answers with odd contents through the public API - increment / append / get / put / check-and-put x {0-2 cells x value lengths 0,1,7,8,9; no result; no processed flag; cells in the protobuf as well as in the cellblock}: the call returns a value or an error. Also: region-info values naming tables of 1..40000 bytes into parser and cache; tier W: the row answering a region lookup with odd contents (5 row keys for the first cell x 2 for the others x {valid, offline, huge table, huge table offline, garbage} region-info x server cell absent / behind / in front).",
 		Assumptions: []string{"allocation of a frame's own declared length (the 4-byte prefix) is inherent to the framing and not judged; prefixes above 1 MiB are not generated", "default thread schedule for part B (schedules are C03's subject)"},
 		Quick:       120 * time.Second, Thorough: 20 * time.Minute,
-		Units: c11Units, Direct: c11Direct,
+		Units: c11Units, Direct: c11Direct, Arch32: true,
 	})
 }
